@@ -268,6 +268,7 @@ class RaisePoint:
     text: str
     callee: str | None = None
     validated: tuple = ()
+    final_ranges: tuple = ()  # (first order, last order) of the events of enclosing `finally` blocks: they run on this exit too
 
 
 _SUB_CACHE = {}
@@ -291,6 +292,7 @@ class MethodAnalysis:
         self.events: list[Event] = []
         self.raises: list[RaisePoint] = []
         self.order = 0
+        self.acc_axioms = {}  # accumulator atom term -> (relation, domain formula over '$')
         self.loop_counter = 0
         self.if_counter = 0
         self.established = set()  # (table, term) keys known present / accepted; ("!table", term) keys known absent
@@ -549,6 +551,7 @@ class MethodAnalysis:
             self.bind_target(st.target, dom, src, caller, lid, st, env)
         benv = dict(env)
         self.block(st.body, benv, conds, loops + (lid,))
+        self.close_accumulators(st, env, benv, lid)
         # a completed loop that leaves every element of its domain a key of N/E (created or found present)
         sc = self.loop_vars.get(lid)
         if isinstance(sc, Sc) and sc.dom is not None and not any(isinstance(x, (ast.Continue, ast.Break, ast.Return)) for b in st.body for x in ast.walk(b)):
@@ -566,6 +569,48 @@ class MethodAnalysis:
             return None if r is None else r[len(conds):]
         return ()
 
+    def close_accumulators(self, st, env, benv, lid):
+        """Local sets that grew inside the loop by terms over the loop variable (`acc.add(v)`, `acc.update(E[v][side])`):
+        after the loop they hold the union over the whole domain.  `$ = v` becomes `$ in domain`; `$ in E.s[v]` becomes an
+        accumulator atom with the axiom  v' in domain & x in E.s[v']  =>  x in acc  (used by the balance check)."""
+        sc = self.loop_vars.get(lid)
+        jumps = any(isinstance(x, (ast.Continue, ast.Break, ast.Return)) for b in st.body for x in ast.walk(b))
+        for name, v in list(benv.items()):
+            if not isinstance(v, SetV):
+                continue
+            mentions = sc is not None and any(sc.term in a[3] for a in atoms_of(v.f))
+            if not mentions:
+                continue
+            before = env.get(name)
+            ok = isinstance(before, SetV) and not jumps and sc.dom is not None and not any(sc.term in a[3] for a in atoms_of(before.f))
+            terms = []
+            if ok:
+                parts = list(v.f[1:]) if v.f[0] == "or" else [v.f]
+                bparts = (list(before.f[1:]) if before.f[0] == "or" else [before.f]) if before.f != FALSE else []
+                if parts[: len(bparts)] != bparts:
+                    ok = False
+                else:
+                    terms = parts[len(bparts):]
+            new_terms = []
+            for t in terms if ok else []:
+                if t[0] != "atom" or t[1] != "$":
+                    ok = False
+                    break
+                if t[2] == "=" and t[3] == sc.term:
+                    new_terms.append(sc.dom.f)
+                elif t[2] == "in" and t[3].endswith(f"[{sc.term}]") and t[3][0] in "EN":
+                    rel = t[3][: -len(sc.term) - 2]
+                    aterm = f"acc:{name}@{st.lineno}:{rel}"
+                    self.acc_axioms[aterm] = (rel, sc.dom.f)
+                    new_terms.append(Atom("$", "in", aterm))
+                else:
+                    ok = False
+                    break
+            if ok:
+                benv[name] = SetV(Or(before.f, *new_terms), source=None, materialized=True, caller=v.caller, toks=v.toks)
+            else:
+                benv[name] = Opaque(f"set `{name}` accumulated over loop iterations in a way the walker cannot summarise")
+
     def while_stmt(self, st, env, conds, loops):
         self.ev_test(st.test, env, conds, loops, st)
         self.loop_counter += 1
@@ -578,6 +623,7 @@ class MethodAnalysis:
         return ()
 
     def try_stmt(self, st, env, conds, loops):
+        n_raises0 = len(self.raises)
         r = self.block(st.body, env, conds, loops)
         for h in st.handlers:
             henv = dict(env)
@@ -597,7 +643,12 @@ class MethodAnalysis:
             r2 = self.block(st.orelse, env, r, loops)
             rest = None if r2 is None else r2[len(conds):]
         if st.finalbody:
+            inside = list(self.raises[n_raises0:])
+            t0 = self.order
             self.block(st.finalbody, env, conds, loops)
+            t1 = self.order
+            for rp in inside:
+                rp.final_ranges = rp.final_ranges + ((t0 + 1, t1),)
         return rest
 
     # ------------------------------------------------------------------ learning from conditions
@@ -1409,6 +1460,14 @@ class MethodAnalysis:
             nf = Or(s.f, Atom("$", "=", a.term)) if m == "add" else And(s.f, Not(Atom("$", "=", a.term)))
             env[recv_node.id] = SetV(nf, source=s.source, materialized=True, caller=s.caller)
             return Opaque(m)
+        if m in ("update", "difference_update", "intersection_update") and isinstance(recv_node, ast.Name) and len(args) == 1:
+            b = self.as_set(args[0])
+            if b is None:
+                env[recv_node.id] = Opaque(f"set.{m} with an operand the walker cannot describe")
+                return Opaque(m)
+            nf = Or(s.f, b.f) if m == "update" else (And(s.f, Not(b.f)) if m == "difference_update" else And(s.f, b.f))
+            env[recv_node.id] = SetV(nf, source=None, materialized=True, caller=s.caller or b.caller, toks=s.toks | b.toks)
+            return Opaque(m)
         if m in ("issubset", "issuperset", "isdisjoint", "__contains__"):
             return Opaque(m)
         return Opaque(f"set.{m}")
@@ -1881,6 +1940,33 @@ class Balance:
         # two different constant terms cannot both equal the generic variable when they are distinct automatic IDs etc.: not assumed
         return True
 
+    def accumulators_ok(self, asg):
+        """acc = union over v in D of REL[v]:  (g in D) & (m in REL[g])  =>  m in acc, for the generic pair (e, x)."""
+        for a, val in asg.items():
+            if a[0] != "atom" or a[2] != "in" or not a[3].startswith("acc:") or val:
+                continue
+            rel, dom = self.ma.acc_axioms.get(a[3], (None, None))
+            if rel is None:
+                continue
+            member_var = a[1]  # the variable said not to be in the accumulator
+            key_var = "e" if member_var == "x" else "x"
+            if (rel.startswith("E") and member_var != "x") or (rel.startswith("N") and member_var != "e"):
+                continue
+            gen = ("atom", member_var, "in", f"{rel}[{key_var}]")
+            if not asg.get(gen, False):
+                # the dual atom of the pre-relation says the same thing
+                base, _, side = rel.partition(".")
+                dual = ("atom", key_var, "in", f"{'N' if base == 'E' else 'E'}{('.' + DUAL_SIDE[side]) if side else ''}[{member_var}]")
+                if not asg.get(dual, False):
+                    continue
+            d = subst(dom, key_var)
+            try:
+                if all(x in asg for x in atoms_of(d)) and evalf(d, asg):
+                    return False
+            except KeyError:
+                continue
+        return True
+
     def equivalent(self, f1, f2, side_pair, loss):
         """Returns None if equivalent under the constraints, else a witness assignment (dict atom->bool)."""
         f1, f2 = factor_common(f1, f2)
@@ -1908,6 +1994,8 @@ class Balance:
             if not distinct_terms_ok(asg, atoms):
                 continue
             if not self.consistent(asg, atoms, side_pair):
+                continue
+            if not self.accumulators_ok(asg):
                 continue
             if evalf(f1, asg) != evalf(f2, asg):
                 return asg
